@@ -12,6 +12,7 @@ mod io;
 mod rng;
 mod robs_map;
 mod robs_set;
+mod rtc;
 mod transport;
 
 use std::io::Write;
@@ -132,6 +133,7 @@ fn main() {
         "robs_set" => robs_set::run(seed, count, &extra, &mut out),
         "broadcast" => broadcast::run(seed, count, &extra, &mut out),
         "io" => io::run(seed, count, &extra, &mut out),
+        "rtc" => rtc::run(seed, count, &extra, &mut out),
         _ => {
             eprintln!("unknown component {comp}");
             std::process::exit(2);
